@@ -16,6 +16,7 @@ EVIDENCE = os.path.join(VERIF, "evidence")
 KNOWN = os.path.join(VERIF, "known_findings.json")
 
 JAVA_OPTS = "-Xss1g -Dtlc2.tool.queue.IStateQueue=StateDeque"
+TLA_CP = "/opt/veriftools/tla/tla2tools.jar:/opt/veriftools/tla/CommunityModules-deps.jar"
 
 
 class ToolError(Exception):
@@ -80,8 +81,10 @@ def run_tlc(prop, module, cfg=None, tier="quick", workers=8, seed=0, extra_env=N
     wd = workdir(prop)
     meta = os.path.join(wd, "tlc_" + module)
     cfgp = os.path.join(SPEC, (cfg or module) + ".cfg")
-    cmd = ["tlc", "-workers", str(workers), "-metadir", meta, "-cleanup", "-noGenerateSpecTE",
-           "-config", cfgp]
+    # java is called directly (not through the `tlc` wrapper) so that -Xss also applies to the main thread, which
+    # evaluates ASSUMEs and constant definitions (JAVA_TOOL_OPTIONS only reaches threads created later)
+    cmd = ["java", "-Xss" + (java_opts or "512m"), "-XX:+UseParallelGC", "-cp", TLA_CP, "tlc2.TLC",
+           "-workers", str(workers), "-metadir", meta, "-cleanup", "-noGenerateSpecTE", "-config", cfgp]
     if simulate:
         cmd += ["-simulate", simulate, "-seed", str(seed)]
     if coverage:
@@ -90,7 +93,7 @@ def run_tlc(prop, module, cfg=None, tier="quick", workers=8, seed=0, extra_env=N
     env = env_base()
     env["VERIF_TIER"] = tier
     env["VERIF_SEED"] = str(seed)
-    env["JAVA_TOOL_OPTIONS"] = java_opts or "-Xss512m"
+    env.pop("JAVA_TOOL_OPTIONS", None)
     if extra_env:
         env.update({k: str(v) for k, v in extra_env.items()})
     t0 = time.time()
